@@ -51,7 +51,15 @@ func numEvent(form, text string) AEv {
 	case "bigfloat":
 		f, _ := r.Float64()
 		return floatEv("OnBigFloat", bigFloatKey(new(big.Float).SetFloat64(f)), "")
-	case "dfloat", "bigdfloat":
+	case "dfloat", "bigdfloat", "dfloat-exp", "bigdfloat-exp":
+		// "-exp": the same value with the trailing zeros of a whole number moved into the exponent (1e19)
+		if strings.HasSuffix(form, "-exp") {
+			form = strings.TrimSuffix(form, "-exp")
+			t := strings.TrimRight(text, "0")
+			if !strings.Contains(text, ".") && len(t) < len(text) && len(t) > 0 && t != "-" {
+				text = fmt.Sprintf("%sE+%d", t, len(text)-len(t))
+			}
+		}
 		d, _, err := apd.NewFromString(text)
 		if err != nil {
 			panic(err)
